@@ -1819,6 +1819,13 @@ class SpaceUpdater(SharedSpaceOperations):
             self._instructions.append(
                 Instruction(self._update_derived_space, (v,))
             )
+        # ... and the references of their child spaces, which may be
+        # bound relatively through the inheritance of their parents
+        for v in sorted(subs):
+            for ch in self._graph.visit_tree(v, include_self=False):
+                if ch not in subs and ch not in nodes_removed:
+                    self._instructions.append(
+                        Instruction(self._update_derived_refs, (ch,)))
 
         self._graph.remove_nodes_from(nodes_removed)
 
